@@ -28,7 +28,7 @@ def tla_desc_to_py(d: dict) -> dict:
                       "mapspec": None, "internal_shape": list(f.get("internal", [])), "cache": bool(f.get("cache", False)),
                       "renamed": list(f.get("renamed", [])),
                       "retnone": bool(f.get("retnone", False)), "outperm": bool(f.get("outperm", False)),
-                      "outrenamed": bool(f.get("outrenamed", False)), "picker": bool(f.get("picker", False))})
+                      "outrenamed": bool(f.get("outrenamed", False)), "picker": bool(f.get("picker", False)), "hook": bool(f.get("hook", False))})
     return {"funcs": funcs}
 
 
@@ -42,6 +42,9 @@ def call_events(log_start: int) -> list[dict]:
         if rec["e"] == "call":
             fd = build.REG[rec["fid"]]
             out.append(ev(e="call", f=rec["f"], kwargs=[[p, rec["kwargs"][p]] for p in fd["params"]]))
+        elif rec["e"] == "hook":
+            fd = build.REG[rec["fid"]]
+            out.append(ev(e="hook", f=rec["f"], kwargs=[[p, rec["kwargs"][p]] for p in fd["params"]], val=rec["result"]))
     return out
 
 
